@@ -4,9 +4,18 @@ package c15
 
 import (
 	"bytes"
+	"crypto/ecdsa"
+	"crypto/elliptic"
+	crand "crypto/rand"
+	"crypto/x509"
+	"crypto/x509/pkix"
 	"encoding/json"
+	"encoding/pem"
 	"fmt"
+	"io/ioutil"
+	"math/big"
 	"os"
+	"path/filepath"
 	"sort"
 	"strings"
 	"testing"
@@ -663,4 +672,88 @@ func TestIdentity(t *testing.T) {
 		}
 		leg.Case(mut+fmt.Sprint(rapid.IntRange(0, 1000).Draw(t, "salt")), true)
 	})
+}
+
+// TLS settings of the REST API need real certificate files, so they get
+// their own leg: paths relative to the configuration folder or absolute,
+// optionally with other settings; the saved form must carry the paths as
+// they were given.
+func TestRestTLSPaths(t *testing.T) {
+	leg := ev.L("rest-tls-paths", "restapi section with ssl_cert_file/ssl_key_file pointing at a generated self-signed certificate, each given relative to the configuration folder or as an absolute path, 0-3 other settings; LoadJSON must accept and ToJSON must show the two paths exactly as given (so that the saved file still works when the folder moves) and load again; non-trivial = at least one relative path; distinct by settings")
+	base, err := ioutil.TempDir(os.Getenv("VERIF_WORKDIR"), "c15tls-")
+	if err != nil {
+		t.Fatal(err)
+	}
+	defer os.RemoveAll(base)
+	os.MkdirAll(filepath.Join(base, "tls"), 0700)
+	certPEM, keyPEM := selfSigned(t)
+	ioutil.WriteFile(filepath.Join(base, "tls", "server.crt"), certPEM, 0600)
+	ioutil.WriteFile(filepath.Join(base, "tls", "server.key"), keyPEM, 0600)
+	var s section
+	for _, x := range sections {
+		if x.name == "restapi" {
+			s = x
+		}
+	}
+	rapid.Check(t, func(t *rapid.T) {
+		relCert, relKey := rapid.Bool().Draw(t, "relCert"), rapid.Bool().Draw(t, "relKey")
+		cert, key := filepath.Join(base, "tls", "server.crt"), filepath.Join(base, "tls", "server.key")
+		if relCert {
+			cert = "tls/server.crt"
+		}
+		if relKey {
+			key = rapid.SampledFrom([]string{"tls/server.key", "./tls/server.key"}).Draw(t, "relKeyForm")
+		}
+		m := defaultJSON(t, s)
+		m["ssl_cert_file"], m["ssl_key_file"] = cert, key
+		var desc []string
+		for i := rapid.IntRange(0, 3).Draw(t, "nother"); i > 0; i-- {
+			f := s.fields[rapid.IntRange(0, len(s.fields)-1).Draw(t, "field")]
+			v := drawValue(t, f.kind)
+			if !v.wellformed {
+				continue
+			}
+			setPath(m, f.path, v.v)
+			desc = append(desc, fmt.Sprintf("%s=%s", f.path, canonJSON(v.v)))
+		}
+		j, _ := json.Marshal(m)
+		c := s.mk()
+		c.SetBaseDir(base)
+		if err := c.LoadJSON(j); err != nil {
+			leg.Case(fmt.Sprintf("cert=%s key=%s %v rejected", cert, key, desc), false, "rejected")
+			return
+		}
+		out, err := c.ToJSON()
+		if err != nil {
+			t.Fatalf("ToJSON: %v", err)
+		}
+		var om map[string]interface{}
+		json.Unmarshal(out, &om)
+		if om["ssl_cert_file"] != cert || om["ssl_key_file"] != key {
+			t.Fatalf("loaded ssl_cert_file=%q ssl_key_file=%q, saved as %v / %v (configuration folder %s)", cert, key, om["ssl_cert_file"], om["ssl_key_file"], base)
+		}
+		c2 := s.mk()
+		c2.SetBaseDir(base)
+		if err := c2.LoadJSON(out); err != nil {
+			t.Fatalf("the saved configuration does not load: %v\n%s", err, out)
+		}
+		leg.Case(fmt.Sprintf("cert=%s key=%s %v", cert, key, desc), relCert || relKey)
+	})
+}
+
+func selfSigned(t *testing.T) ([]byte, []byte) {
+	priv, err := ecdsa.GenerateKey(elliptic.P256(), crand.Reader)
+	if err != nil {
+		t.Fatal(err)
+	}
+	tmpl := &x509.Certificate{SerialNumber: big.NewInt(1), Subject: pkix.Name{CommonName: "verif"}, NotBefore: time.Now().Add(-time.Hour), NotAfter: time.Now().Add(24 * time.Hour), DNSNames: []string{"localhost"}}
+	der, err := x509.CreateCertificate(crand.Reader, tmpl, tmpl, &priv.PublicKey, priv)
+	if err != nil {
+		t.Fatal(err)
+	}
+	kb, err := x509.MarshalECPrivateKey(priv)
+	if err != nil {
+		t.Fatal(err)
+	}
+	return pem.EncodeToMemory(&pem.Block{Type: "CERTIFICATE", Bytes: der}), pem.EncodeToMemory(&pem.Block{Type: "EC PRIVATE KEY", Bytes: kb})
 }
